@@ -513,11 +513,35 @@ fn client_directed(k: u64, seed: u64) -> Option<CCfg> {
             ];
             c.label = "C14-at-capacity-unflushed-abandon-and-handle-drop-in-one-gap";
         }
+        35 => {
+            // C02: a burst of 70 calls is queued before the dispatch is polled for the first time;
+            // the peer stays silent, so nothing but the dispatch's own wake-ups can finish the work
+            c.ncalls = 0;
+            c.never_pct = 100;
+            c.abandon_pct = 0;
+            c.cap = 128;
+            c.max_in_flight = 128;
+            c.buffer = 128;
+            c.isolated_strays = false;
+            c.model = Model::Independent;
+            let mut sc = vec![];
+            for _ in 0..70 {
+                sc.push(Act::StartCall(Dl::Ms(1000)));
+            }
+            for k in 0..70 {
+                sc.push(Act::PollCaller(k));
+            }
+            sc.push(Act::RunIdle);
+            sc.push(Act::Advance(1100));
+            sc.push(Act::RunIdle);
+            c.script = sc;
+            c.label = "C02-burst-queued-before-first-dispatch-poll";
+        }
         _ => return None,
     }
     Some(c)
 }
-const N_CLIENT_DIRECTED: u64 = 35;
+const N_CLIENT_DIRECTED: u64 = 36;
 
 /// scenario `i` of property `prop`
 pub fn client_cfg(prop: &str, i: u64, base_seed: u64, thorough: bool) -> CCfg {
@@ -1449,6 +1473,11 @@ pub fn e2e_cfg(prop: &str, i: u64, base_seed: u64) -> ECfg {
             "C04" => {
                 c.abandon_pct = 100;
                 c.deadlines = vec![Some(10_000)];
+                // every third directed chain: clients whose in-flight limit is exactly reached by one call
+                if i % 3 == 1 {
+                    c.client_max_in_flight = Some(1);
+                    c.ncalls = 1;
+                }
             }
             "C07" => {
                 c.abandon_pct = 0;
